@@ -757,6 +757,7 @@ func main() {
 	var violLines, knownLines, inconLines []string
 	replayed, replayOK := 0, 0
 	witnessReplayed, witnessOK := 0, 0
+	witnessSkipped := 0
 	replayDir := filepath.Join(verif, "replays", prop)
 	os.MkdirAll(replayDir, 0o755)
 	nviol := 0
@@ -863,6 +864,11 @@ func main() {
 				}
 				if ok {
 					witnessOK++
+				} else if len(hr.ReachSched[lab]) > 0 && strings.HasPrefix(out, "witness label not reached natively") {
+					// a witness of a concurrent harness whose imposed schedule could not be followed natively
+					// and whose free-running replay took another (legal) interleaving: not reaching the
+					// label says nothing about the encoding - counted as not validated, not as a mismatch
+					witnessSkipped++
 				} else {
 					inconLines = append(inconLines, fmt.Sprintf("%s: witness %s does not replay natively as predicted: %s", h.Name, lab, out))
 				}
@@ -877,7 +883,7 @@ func main() {
 	ev := buildEvidence(prop, *flagTier, seed, hs, results, solverStats, map[string]interface{}{
 		"load_s": loadS, "solver_s": solverWall, "queries": map[string]int{"sat": nSat, "unsat": nUnsat, "unknown": nUnknown, "error": nErr},
 		"counterexamples_replayed": replayed, "counterexamples_reproduced": replayOK,
-		"witnesses_replayed": witnessReplayed, "witnesses_matching": witnessOK,
+		"witnesses_replayed": witnessReplayed, "witnesses_matching": witnessOK, "witnesses_schedule_dependent_not_validated": witnessSkipped,
 		"known_findings": knownLines, "inconclusive": inconLines,
 	}, nviol, time.Since(t0).Seconds(), witnessOK+replayOK)
 	evPath := *flagEvidence
